@@ -48,6 +48,7 @@ type State struct {
 	heaps map[string]*Term
 	epoch int
 	held  map[string]*heldLock
+	cells map[string]Val // known contents of local cells (captured variables), by cell term
 }
 
 type heldLock struct {
@@ -58,9 +59,12 @@ type heldLock struct {
 }
 
 func (s *State) clone() *State {
-	n := &State{pc: s.pc, heaps: make(map[string]*Term, len(s.heaps)), epoch: s.epoch, held: map[string]*heldLock{}}
+	n := &State{pc: s.pc, heaps: make(map[string]*Term, len(s.heaps)), epoch: s.epoch, held: map[string]*heldLock{}, cells: map[string]Val{}}
 	for k, v := range s.heaps {
 		n.heaps[k] = v
+	}
+	for k, v := range s.cells {
+		n.cells[k] = v
 	}
 	for k, v := range s.held {
 		n.held[k] = v
@@ -91,6 +95,7 @@ type VCtx struct {
 	actionOld *State
 	csCount   int
 	heldAtEntry *Term
+	writesZero bool
 	relPkgs   []string
 	gmaps     []*ghostMapInfo
 	usesAtomics bool
@@ -301,6 +306,10 @@ func (c *VCtx) heap(st *State, name string, sort Sort) *Term {
 		return t
 	}
 	t := c.declare(c.heapName(name, st.epoch), sort)
+	if strings.HasPrefix(name, "G:writes:") && st.epoch == 0 && !c.declSet["wz:"+t.S] {
+		c.declSet["wz:"+t.S] = true
+		c.facts0(T(SBool, fmt.Sprintf("(forall ((r Ref)) (! (= (select %s r) 0) :pattern ((select %s r))))", t.S, t.S)))
+	}
 	if !c.declSet["wf:"+t.S] {
 		c.declSet["wf:"+t.S] = true
 		c.heapWellFormed(st, name, t)
@@ -351,6 +360,9 @@ func (c *VCtx) havocHeap(st *State, name string) *Term {
 	t := c.fresh("H!"+name, sort)
 	c.heapWellFormed(st, name, t)
 	st.heaps[name] = t
+	if strings.HasPrefix(name, "C:") {
+		st.cells = map[string]Val{}
+	}
 	return t
 }
 
@@ -358,6 +370,7 @@ func (c *VCtx) havocAll(st *State) {
 	c.nfresh++
 	st.epoch = c.nfresh
 	st.heaps = map[string]*Term{}
+	st.cells = map[string]Val{}
 }
 
 // ---------- obligations ----------
@@ -801,7 +814,18 @@ func (c *VCtx) mergeStates(ins []*State) (*State, []*Term) {
 	for i, s := range ins {
 		guards[i] = s.pc
 	}
-	st := &State{heaps: map[string]*Term{}, held: map[string]*heldLock{}}
+	st := &State{heaps: map[string]*Term{}, held: map[string]*heldLock{}, cells: map[string]Val{}}
+	for k, v := range ins[0].cells {
+		same := true
+		for _, s := range ins[1:] {
+			if w, ok := s.cells[k]; !ok || !sameVal(v, w) {
+				same = false
+			}
+		}
+		if same {
+			st.cells[k] = v
+		}
+	}
 	st.pc = c.name("pc", Or(guards...))
 	// epoch: all must agree, else take max and treat others' lazily-created heaps as base of that epoch
 	st.epoch = ins[0].epoch
@@ -955,6 +979,10 @@ func (c *VCtx) execFunction(fr *Frame, st *State) (*State, Val) {
 		}
 		fr.curBlock = nil
 		c.runGhost(fr, out, fr.contract, "exit", extra)
+	}
+	if fr.contract != nil && fr.contract.Asserts != nil && len(fr.contract.Asserts["exit"]) > 0 {
+		fr.curBlock = nil
+		c.pointAsserts(fr, out, "exit", fn.Pos())
 	}
 	return out, res
 }
